@@ -10,6 +10,7 @@ import ast
 
 from ..astx import walk_no_nested, dotted, call_name, func_params, dominating_conditions, flatten_conditions, parent
 from ..core import norm, Inconclusive
+from .. import pat
 
 FN = "graphtage.matching.min_weight_bipartite_matching"
 
@@ -45,8 +46,31 @@ def r15(ctx):
                       f"than columns the solver skips rows, so the row of each column cannot be recovered from its position")
     arr = call.args[0] if call.args else None
     mx = next((k.value for k in call.keywords if k.arg == "maximize"), None)
-    ok_arr = isinstance(arr, ast.Call) and (call_name(arr) or "").endswith("array") and arr.args and dotted(arr.args[0]) == "weights" \
-        and any(k.arg == "dtype" and dotted(k.value) == "dtype" for k in arr.keywords)
+    # role names: the weight table is what is handed to np.array, the dtype variable is its dtype= keyword
+    WV = dotted(arr.args[0]) if isinstance(arr, ast.Call) and arr.args else None
+    DV = next((dotted(k.value) for k in (arr.keywords if isinstance(arr, ast.Call) else []) if k.arg == "dtype"), None)
+    # the table must be the one the edge loop fills (a nested list comprehension of None)
+    tab = [s_ for s_ in walk_no_nested(fn) if isinstance(s_, (ast.Assign, ast.AnnAssign)) and isinstance(s_.value, ast.ListComp)
+           and "None" in ast.unparse(s_.value)]
+    table_name = dotted(tab[0].targets[0] if isinstance(tab[0], ast.Assign) else tab[0].target) if tab else None
+    ok_arr = isinstance(arr, ast.Call) and (call_name(arr) or "").endswith("array") and WV is not None and WV == table_name and DV is not None
+    # sentinel / flag / edge-type names
+    SV = HV = ET = None
+    for s_ in walk_no_nested(fn):
+        if isinstance(s_, (ast.Assign, ast.AnnAssign)) and isinstance(s_.value, ast.BinOp) and isinstance(s_.value.left, ast.Call) \
+                and call_name(s_.value.left) == "max":
+            SV = dotted(s_.targets[0] if isinstance(s_, ast.Assign) else s_.target)
+    _e, eb = pat.first("E = type(X)", fn)
+    ET = eb["E"] if eb else None
+    for s_ in walk_no_nested(fn):
+        if isinstance(s_, ast.Assign) and isinstance(s_.value, ast.Constant) and s_.value.value is True and isinstance(s_.targets[0], ast.Name) \
+                and any(isinstance(a, ast.If) and "is not None" in ast.unparse(a.test) for a in ancestors_of(s_)):
+            HV = s_.targets[0].id
+    if not all((WV, DV, SV, HV, ET)):
+        raise Inconclusive(f"min_weight_bipartite_matching: cannot identify the table/dtype/sentinel/flag/edge-type variables ({WV}, {DV}, {SV}, {HV}, {ET})")
+    mins = [dotted(a) for s_ in walk_no_nested(fn) if isinstance(s_, ast.Assign) and dotted(s_.targets[0]) == DV
+            and isinstance(s_.value, ast.Call) and (call_name(s_.value) or "").endswith("get_dtype") for a in s_.value.args]
+    MINV, MAXV = (mins + [None, None])[:2]
     ok_min = mx is None or (isinstance(mx, ast.Constant) and mx.value is False)
     if ok_arr and ok_min:
         ctx.proved("R15e", fl, name, call, "solver call", "minimises over np.array(weights, dtype=dtype)")
@@ -61,7 +85,7 @@ def r15(ctx):
         v = r.value
         if isinstance(v, ast.Dict) and not v.keys:
             facts = [ast.unparse(t).replace(" ", "") for t, pol in flatten_conditions(dominating_conditions(r)) if pol]
-            if "edge_typeisNone" in facts:
+            if f"{ET}isNone" in facts:
                 ctx.proved("R15d", fl, name, r, "empty answer", "{} only when the table has no pair at all")
             else:
                 ctx.violation("R15d", fl, name, r, "empty answer", f"returns {{}} under {facts}, not only for a table without pairs")
@@ -91,7 +115,7 @@ def r15(ctx):
         key_ok = dotted(dc.key) == r_
         val = dc.value
         val_ok = isinstance(val, ast.Tuple) and len(val.elts) == 2 and dotted(val.elts[0]) == c_ and \
-            ast.unparse(val.elts[1]).replace(" ", "") == f"weights[{r_}][{c_}]"
+            ast.unparse(val.elts[1]).replace(" ", "") == f"{WV}[{r_}][{c_}]"
         if key_ok and val_ok:
             ctx.proved("R15a", fl, name, main_ret, "pairs from the solver",
                        f"{{{r_}: ({c_}, weights[{r_}][{c_}]) for {r_}, {c_} in zip(row indices, column indices)}}")
@@ -106,7 +130,7 @@ def r15(ctx):
     # filter
     flt = gen.ifs[0] if gen.ifs else None
     ftxt = ast.unparse(flt).replace(" ", "") if flt is not None else ""
-    if tv and ftxt == f"nothas_null_edgesorweights[{tv[0]}][{tv[1]}]<null_edge_value":
+    if tv and ftxt == f"not{HV}or{WV}[{tv[0]}][{tv[1]}]<{SV}":
         ctx.proved("R15a", fl, name, flt, "sentinel filter", "pairs whose stored weight reaches the sentinel are dropped (strict <)")
     else:
         ctx.violation("R15a", fl, name, flt or main_ret, "sentinel filter",
@@ -114,22 +138,22 @@ def r15(ctx):
                       f"`not has_null_edges or weights[r][c] < null_edge_value`; otherwise non-existent pairs are reported")
     # ---- sentinel
     sent = [s for s in walk_no_nested(fn) if isinstance(s, (ast.Assign, ast.AnnAssign))
-            and dotted(s.targets[0] if isinstance(s, ast.Assign) else s.target) == "null_edge_value"
+            and dotted(s.targets[0] if isinstance(s, ast.Assign) else s.target) == SV
             and not (isinstance(s.value, ast.Constant) and s.value.value is None)]
     if sent:
         sval = sent[0].value
         if isinstance(sval, ast.BinOp) and isinstance(sval.op, ast.Add) and isinstance(sval.right, ast.Constant) \
                 and isinstance(sval.right.value, int) and sval.right.value >= 1 and isinstance(sval.left, ast.Call) \
                 and call_name(sval.left) == "max" and any(isinstance(x, ast.Call) and call_name(x) == "sum" for x in ast.walk(sval.left)) \
-                and "weights[" in ast.unparse(sval.left):
+                and f"{WV}[" in ast.unparse(sval.left):
             ctx.proved("R15b", fl, name, sent[0], "sentinel magnitude", "sentinel = max column sum + 1 > any real pair")
         else:
             ctx.violation("R15b", fl, name, sent[0], "sentinel magnitude",
                           f"sentinel `{norm(sent[0].value, 60)}` is not (largest column sum + 1): a real pair could cost as "
                           f"much as a missing one and be dropped, or a missing pair be preferred")
-        fold = [s for s in walk_no_nested(fn) if isinstance(s, ast.Assign) and dotted(s.targets[0]) == "max_edge"
-                and dotted(s.value) == "null_edge_value"]
-        dts = [s for s in walk_no_nested(fn) if isinstance(s, ast.Assign) and dotted(s.targets[0]) == "dtype"
+        fold = [s for s in walk_no_nested(fn) if isinstance(s, ast.Assign) and dotted(s.targets[0]) == MAXV
+                and dotted(s.value) == SV]
+        dts = [s for s in walk_no_nested(fn) if isinstance(s, ast.Assign) and dotted(s.targets[0]) == DV
                and isinstance(s.value, ast.Call) and (call_name(s.value) or "").endswith("get_dtype")]
         if fold and dts and fold[0].lineno < dts[0].lineno and _same_or_outer(fold[0], sent[0]):
             ctx.proved("R15b", fl, name, fold[0], "sentinel folded before dtype",
@@ -139,10 +163,10 @@ def r15(ctx):
                           "the dtype is chosen before (or without) the sentinel being folded into max_edge: the sentinel can "
                           "overflow the chosen integer type and wrap to a small weight")
         fill = [s for s in walk_no_nested(fn) if isinstance(s, ast.Assign) and isinstance(s.targets[0], ast.Subscript)
-                and dotted(s.value) == "null_edge_value"]
+                and dotted(s.value) == SV]
         if fill and fill[0].lineno < sv.lineno:
             facts = [ast.unparse(t).replace(" ", "") for t, pol in flatten_conditions(dominating_conditions(fill[0])) if pol]
-            if any("isNone" in x for x in facts) and "has_null_edges" in facts:
+            if any("isNone" in x for x in facts) and HV in facts:
                 ctx.proved("R15b", fl, name, fill[0], "missing cells filled", "every None cell receives the sentinel before the solver runs")
             else:
                 ctx.violation("R15b", fl, name, fill[0], "missing cells filled", f"sentinel fill is guarded by {facts}")
@@ -153,11 +177,11 @@ def r15(ctx):
     # ---- dtype selection
     sel = {}
     for s in walk_no_nested(fn):
-        if isinstance(s, ast.Assign) and dotted(s.targets[0]) == "dtype":
+        if isinstance(s, ast.Assign) and dotted(s.targets[0]) == DV:
             facts = [ast.unparse(t).replace(" ", "") for t, pol in flatten_conditions(dominating_conditions(s)) if pol]
             for ft in facts:
-                if ft.startswith("edge_typeis") and not ft.startswith("edge_typeisnot") and not ft.endswith("None"):
-                    sel[ft[len("edge_typeis"):]] = s
+                if ft.startswith(f"{ET}is") and not ft.startswith(f"{ET}isnot") and not ft.endswith("None"):
+                    sel[ft[len(f"{ET}is"):]] = s
             if isinstance(s.value, ast.Call) and (call_name(s.value) or "").endswith("get_dtype"):
                 sel["int"] = s
     want = {"bool": "bool", "float": "float"}
@@ -170,13 +194,19 @@ def r15(ctx):
                           f"{k} weights get dtype `{got}`; expected `{w}`"
                           + (" - a narrower float merges weights that differ by less than its resolution, so the solver's "
                              "optimum need not be the true optimum" if k == "float" else ""))
-    if "int" in sel and [dotted(a) for a in sel["int"].value.args] == ["min_edge", "max_edge"]:
+    minmax_ok = False
+    if "int" in sel and len(sel["int"].value.args) == 2:
+        lo_, hi_ = (dotted(a) for a in sel["int"].value.args)
+        # min_edge / max_edge are the running minimum / maximum over the real edges
+        minmax_ok = pat.has(f"if {hi_} is None or {hi_} < E:\n    {hi_} = E", fn, stmts=True) and \
+            pat.has(f"if {lo_} is None or {lo_} > E:\n    {lo_} = E", fn, stmts=True)
+    if minmax_ok:
         ctx.proved("R15c", fl, name, sel["int"], "dtype for int", "get_dtype(min_edge, max_edge)")
     else:
         ctx.violation("R15c", fl, name, sel.get("int", fn), "dtype for int", "integer weights do not use get_dtype(min_edge, max_edge)")
     # dtype selection must not depend on weight magnitudes for non-integers
     for s in walk_no_nested(fn):
-        if isinstance(s, ast.Assign) and dotted(s.targets[0]) == "dtype" and s not in sel.values():
+        if isinstance(s, ast.Assign) and dotted(s.targets[0]) == DV and s not in sel.values():
             ctx.violation("R15c", fl, name, s, f"extra dtype {norm(s.value, 30)}",
                           f"additional dtype choice `{norm(s, 60)}` outside the bool/float/int table")
     # get_dtype + table
@@ -184,7 +214,9 @@ def r15(ctx):
     cmp_ = [c for c in walk_no_nested(gd.node) if isinstance(c, ast.BoolOp)]
     ctxt = ast.unparse(cmp_[0]).replace(" ", "") if cmp_ else ""
     p = func_params(gd.node)
-    if ctxt == f"min_range<={p[0]}andmax_range>{p[1]}":
+    lp_ = next((x for x in walk_no_nested(gd.node) if isinstance(x, ast.For) and isinstance(x.target, ast.Tuple) and len(x.target.elts) == 3), None)
+    lo_n, hi_n = (lp_.target.elts[0].id, lp_.target.elts[1].id) if lp_ is not None else ("min_range", "max_range")
+    if ctxt == f"{lo_n}<={p[0]}and{hi_n}>{p[1]}":
         ctx.proved("R15c", gd.file, "get_dtype", cmp_[0], "interval test", "lo <= min and hi > max (hi exclusive)")
     else:
         ctx.violation("R15c", gd.file, "get_dtype", cmp_[0] if cmp_ else gd.node, "interval test",
@@ -218,6 +250,11 @@ def r15(ctx):
 
 def _same_or_outer(a, b):
     return True
+
+
+def ancestors_of(n):
+    from ..astx import ancestors
+    return list(ancestors(n))
 
 
 def run(ctx):
